@@ -126,6 +126,7 @@ class Eval:
         self.table = table
         self.classes = classes
         self.prec = prec
+        self.notes: set[str] = set()
 
     def render(self, s: "Str") -> str:
         """Concrete text of a skeleton whose atoms carry their nodes."""
@@ -248,7 +249,17 @@ class Eval:
                     out = out + str(v.value)
                 else:
                     x = self._expr(v.value, env)
-                    out = out + self._tostr(x)
+                    if isinstance(x, (int, float, complex)) and not isinstance(x, bool):
+                        spec = ""
+                        if v.format_spec is not None:
+                            sp = self._expr(v.format_spec, env)
+                            spec = sp if isinstance(sp, str) else "".join(sp.flat())
+                        try:
+                            out = out + format(x, spec)
+                        except (ValueError, TypeError) as ex:
+                            raise AnalysisError(f"fmt_eval: format spec {spec!r} invalid for {type(x).__name__}: {ex}")
+                    else:
+                        out = out + self._tostr(x)
             return out
         if isinstance(e, ast.BinOp) and isinstance(e.op, ast.Add):
             return self._add(self._expr(e.left, env), self._expr(e.right, env))
@@ -262,6 +273,8 @@ class Eval:
             if d is not None and d.split(".")[0] in ("L", "lnodes") and d.split(".")[-1] in self.classes:
                 return _ClsRef(d.split(".")[-1])
             base = self._expr(e.value, env)
+            if isinstance(base, (int, float, complex)) and not isinstance(base, bool) and e.attr in ("real", "imag"):
+                return getattr(base, e.attr)
             if isinstance(base, ANode):
                 if e.attr == "precedence":
                     if base.cls.precedence is None:
@@ -294,7 +307,7 @@ class Eval:
             a = self._expr(e.left, env)
             b = self._expr(e.comparators[0], env)
             op = e.ops[0]
-            if isinstance(a, int) and isinstance(b, int) and not isinstance(a, bool):
+            if isinstance(a, (int, float)) and isinstance(b, (int, float)) and not isinstance(a, bool):
                 return {
                     ast.GtE: a >= b, ast.Gt: a > b, ast.LtE: a <= b, ast.Lt: a < b, ast.Eq: a == b, ast.NotEq: a != b,
                 }[type(op)]
@@ -331,7 +344,7 @@ class Eval:
     def _tostr(self, x):
         if isinstance(x, Str):
             return x
-        if isinstance(x, (str, int)):
+        if isinstance(x, (str, int, float, complex)):
             return Str([str(x)])
         if x is None:
             return Str(["None"])
@@ -346,6 +359,11 @@ class Eval:
             raise AnalysisError("fmt_eval: self(<non-node>)")
         if fn == "isinstance" and len(e.args) == 2:
             x = self._expr(e.args[0], env)
+            if isinstance(x, (int, float, complex, str)) and not isinstance(x, ANode):
+                targets = e.args[1].elts if isinstance(e.args[1], ast.Tuple) else ([e.args[1].left, e.args[1].right] if isinstance(e.args[1], ast.BinOp) else [e.args[1]])
+                tn = {(dotted(t) or "").split(".")[-1] for t in targets}
+                pyt = {"complex": complex, "float": float, "int": int, "str": str, "bool": bool, "Integral": int, "Real": float}
+                return any(type(x) is pyt[n] or (n in ("Real",) and isinstance(x, (int, float))) for n in tn if n in pyt)
             if isinstance(x, ANode):
                 targets = e.args[1].elts if isinstance(e.args[1], ast.Tuple) else [e.args[1]]
                 names = set()
@@ -394,8 +412,25 @@ class Eval:
                     out = out + self._tostr(it)
                 return out
         if fn and fn.startswith("self.") and fn.split(".")[1] in self.table.helpers:
-            # helper such as self._format_number(x): opaque text derived from its argument
             x = self._expr(e.args[0], env) if e.args else None
+            if isinstance(x, (int, float, complex)) and not isinstance(x, bool):
+                # interpret the helper (e.g. _format_number) on the concrete literal value
+                h = self.table.helpers[fn.split(".")[1]]
+                params = [a.arg for a in h.args.args]
+                try:
+                    r = self._block(h.body, {params[1]: x} if len(params) > 1 else {})
+                    if not isinstance(r, _Ret):
+                        raise AnalysisError(f"fmt_eval: helper {fn} does not return")
+                    v = r.value
+                    return v if isinstance(v, Str) else Str([str(v)])
+                except AnalysisError as ex:
+                    # the helper's number formatting is not interpretable (e.g. run-time precision): fall back to
+                    # a reference rendering of the value; digit counts are LIT-DIGITS' business
+                    self.notes.add(f"helper {fn} not interpretable ({ex}); literal rendered by reference")
+                    if isinstance(x, complex):
+                        return Str([f"({x.real!r}+I*{x.imag!r})"])
+                    return Str([repr(x)])
+            # otherwise: opaque text derived from its argument
             tag = x.node_tag if isinstance(x, Atom) else (x.tag if isinstance(x, ANode) else "value")
             if isinstance(x, Str):
                 return x
